@@ -2073,3 +2073,18 @@ Proof.
   - intros H. rewrite Hn, H. reflexivity.
   - intros Hint Ho Hc Hk. unfold rq_is_readable. rewrite Hi, Hint, Ho, Hc, Hk. destruct (rq_unorderedMID q'); reflexivity.
 Qed.
+
+(* abandoned chunks are never selected by loss recovery *)
+Theorem pr_abandoned_not_marked_thm : forall s t c,
+  pr_get (pr_infl s) t = Some c -> pr_abandoned s c = true ->
+  pr_mark s t = None /\ (forall now, pr_fast_retransmit s t now = None) /\
+  (forall c', In c' (pr_infl (pr_mark_all_rtx s)) -> pr_msg c' = pr_msg c -> pr_rtx c' = true ->
+     exists c0, In c0 (pr_infl s) /\ pr_rtx c0 = true /\ pr_msg c0 = pr_msg c).
+Proof.
+  intros s t c Hg Ha. split; [unfold pr_mark; rewrite Hg, Ha, orb_true_r; reflexivity|]. split.
+  - intros now. unfold pr_fast_retransmit. rewrite Hg, Ha, orb_true_r. reflexivity.
+  - intros c' Hc' Hm Hr. unfold pr_mark_all_rtx in Hc'. cbn [pr_set_core pr_infl] in Hc'. apply in_map_iff in Hc'.
+    destruct Hc' as (c0 & <- & Hc0). destruct (pr_acked c0 || pr_abandoned s c0) eqn:E.
+    + exists c0. auto.
+    + cbn in Hm. apply orb_false_iff in E. destruct E as [_ E]. unfold pr_abandoned in *. rewrite Hm in E. congruence.
+Qed.
